@@ -101,6 +101,9 @@ def o_strip_reuse(inp):
     if kind == "field":
         if _get(rem, kind, "other") != "o" or meta.get("other") != "{":
             return (("strip:other-field", repr(rem.blocks[0].fields), "other field stripped and recorded too"), nontrivial, cls)
+    if kind == "field":
+        # a field that joins the entry after the removal has no recorded enclosing: it gets the default one
+        rem.blocks[0].set_field(Field("addedlater", "new, value"))
     for d, r, e in OPTION_SETS:
         if not r:
             continue
@@ -108,6 +111,10 @@ def o_strip_reuse(inp):
         back = libgen.maybe_preuse(add, (v, d, e), same=rem).transform(rem)
         if _get(back, kind, key) != v.strip():
             return (("reuse:not-restored", f"{key} = {v!r} -> {got!r} -> {_get(back, kind, key)!r} (default {d!r}, enclose_integers={e})", repr(v.strip())), nontrivial, cls)
+        if kind == "field":
+            want_added = "{new, value}" if d == "{" else '"new, value"'
+            if _get(back, kind, "addedlater") != want_added:
+                return (("reuse:unrecorded-field-not-default-enclosed", repr(_get(back, kind, "addedlater")), repr(want_added)), nontrivial, cls)
     return (None, nontrivial, cls)
 
 
